@@ -111,7 +111,7 @@ func (r *lru) Promote(n *Node) {
 	r.mu.Unlock()
 
 	for _, rn := range evicted {
-		rn.h.Release()
+		rn.h.releaseLocked()
 	}
 }
 
@@ -127,7 +127,7 @@ func (r *lru) Ban(n *Node) {
 			r.used -= rn.n.Size()
 			r.mu.Unlock()
 
-			rn.h.Release()
+			rn.h.releaseLocked()
 			rn.h = nil
 			return
 		}
@@ -147,7 +147,7 @@ func (r *lru) Evict(n *Node) {
 	n.CacheData = nil
 	r.mu.Unlock()
 
-	rn.h.Release()
+	rn.h.releaseLocked()
 }
 
 // NewLRU create a new LRU-cache.
